@@ -12,16 +12,29 @@ NAMES = ["a", "b", "c", "foo", "bar", "baz.txt", "x.o", "y.o", "main.c", "build"
          ".hidden", ".cfg", "Makefile", "a.b.c", "foo1", "foo2"]
 
 
-def gen_tree(rng, depth):
+def gen_tree(rng, depth, links=0.0):
     ch = {}
     for _ in range(rng.randrange(2, 7)):
         n = rng.choice(NAMES)
-        if n in ch:
+        if os.fsencode(n) in ch:
             continue
         if depth > 0 and rng.random() < 0.4:
-            ch[os.fsencode(n)] = gen_tree(rng, depth - 1)
+            ch[os.fsencode(n)] = gen_tree(rng, depth - 1, links)
         else:
             ch[os.fsencode(n)] = ("file", rng.randrange(0, 50), {})
+    if links and rng.random() < links:
+        # symbolic links (copied as links: no -L here): to a sibling directory, to a sibling file, dangling.  To git a link is
+        # never a directory — `name/` does not exclude it, `name` does
+        dirs = [k for k, v in ch.items() if v[0] == "dir"]
+        files = [k for k, v in ch.items() if v[0] == "file"]
+        for (lname, pool) in ((rng.choice(["latest", "current", "build", "docs"]), dirs), (rng.choice(["alias", "tmp", "x.o"]), files),
+                              (rng.choice(["gone", "log.txt"]), None)):
+            if os.fsencode(lname) in ch or rng.random() < 0.3:
+                continue
+            if pool is None:
+                ch[os.fsencode(lname)] = ("link", b"does-not-exist")
+            elif pool:
+                ch[os.fsencode(lname)] = ("link", rng.choice(pool))
     return ("dir", ch, {})
 
 
@@ -71,7 +84,7 @@ def git_ignored(repo, rels):
 def run(ctx, out):
     rng = ctx.rng
     quick = ctx.tier == "quick"
-    out.rule = ("generated trees (depth<=3) x .gitignore files of 1-6 patterns from the property's language (literal, *, ?, **/, "
+    out.rule = ("generated trees (depth<=3; every third with symbolic links to directories, to files and dangling, named by patterns with and without a trailing slash) x .gitignore files of 1-6 patterns from the property's language (literal, *, ?, **/, "
                 "trailing /, leading /, ! negation, comments, blank lines): (1) real xcp --gitignore copy set, both drivers; "
                 "(2) git check-ignore --no-index per path with pruning by ancestors; (3) the Gallina walk with the real ignore "
                 "crate's verdicts as `keep`; also without the flag. non-trivial = at least one entry excluded; distinct by "
@@ -83,8 +96,15 @@ def run(ctx, out):
     for k in range(n):
         d = os.path.join(d0, "g%d" % k)
         os.makedirs(d)
-        tree = gen_tree(rng, rng.choice([1, 2, 3]))
+        withlinks = (k % 3 == 1)
+        tree = gen_tree(rng, rng.choice([1, 2, 3]), links=0.9 if withlinks else 0.0)
         pats = gen_patterns(rng, tree)
+        if withlinks:
+            lk = [os.fsdecode(r) for r, n in trees.walk_files(tree) if r and n[0] == "link"]
+            for r in lk[:3]:
+                nm = os.path.basename(r)
+                pats.append(rng.choice([nm + "/", nm, "/" + r, "**/" + nm + "/", r + "/"]))
+            out.count("trees_with_symlinks")
         selfnamed = (k % 6 == 5)
         if selfnamed:
             # a top-level directory whose name is (or begins with) the spelling of the source itself, and patterns anchored
